@@ -43,11 +43,10 @@ func (p *ConfigProp[T]) Overwrite(value T) {
 	p.onChange.Fire(value)
 }
 
-// Stages the new value, keeping the old. The change is not committed until CommitStaged is called.
+// Stages the new value, keeping the old. The change is not committed until CommitStaged is called,
+// and subscribers are not notified until NotifyCommitted is called.
 func (p *ConfigProp[T]) Stage(newValue T) {
 	commit, _ := p.value.Load()
-
-	oldVal := commit.ref().Original()
 
 	// Copy the old Overwritable to keep any command-line overwrites.
 	overwritable := commit.Value()
@@ -55,18 +54,39 @@ func (p *ConfigProp[T]) Stage(newValue T) {
 	commit.Stage(overwritable)
 
 	p.value.Store(commit)
-
-	if p.requiresRestart && (oldVal != newValue) {
-		setRestartNeeded()
-	}
-
-	p.onChange.Fire(newValue)
 }
 
 func (p *ConfigProp[T]) CommitStaged() {
 	commit, _ := p.value.Load()
 	commit.Commit()
 	p.value.Store(commit)
+}
+
+// Discards a staged value, or undoes CommitStaged if the update it belonged to was rejected.
+func (p *ConfigProp[T]) RollbackStaged() {
+	commit, _ := p.value.Load()
+	commit.Uncommit()
+	commit.Rollback()
+	p.value.Store(commit)
+}
+
+// Makes a committed change final: marks a restart as needed where that applies and notifies the subscribers.
+// Called only after the whole update has been verified and persisted.
+func (p *ConfigProp[T]) NotifyCommitted() {
+	commit, _ := p.value.Load()
+	previous, changed := commit.Settle()
+	p.value.Store(commit)
+	if !changed {
+		return
+	}
+
+	newValue := commit.ref().Original()
+	if p.requiresRestart && (previous.Original() != newValue) {
+		setRestartNeeded()
+	}
+
+	// Subscribers follow the effective value: a command-line overwrite keeps winning
+	p.onChange.Fire(commit.ref().Get())
 }
 
 func (p *ConfigProp[T]) String() string {
